@@ -27,6 +27,7 @@ def plan(tier, seed):
         for i in range(n_arith):
             specs.append({"kind": "arith", "backend": be, "idx": i, "budget_s": 25 if tier == "quick" else 240})
         specs.append({"kind": "modsqrt", "backend": be, "budget_s": 15 if tier == "quick" else 120})
+        specs.append({"kind": "histories", "backend": be, "idx": 0, "budget_s": 20 if tier == "quick" else 200})
     for i in range(4 if tier == "quick" else 12):
         specs.append({"kind": "primality", "idx": i, "budget_s": 30 if tier == "quick" else 300,
                       "env": {"PYCRYPTODOME_DISABLE_GMP": "1"} if i % 4 == 3 else {}})
@@ -45,6 +46,9 @@ def finalize(agg, tier):
             out.append("no arithmetic operation ran on back-end " + be)
         if not c.get("montgomery_pow:" + be) and be == "custom":
             out.append("the custom back-end's Montgomery exponentiation was never reached")
+        for n in ("history_steps", "history_inplace_steps", "history_pool_checks"):
+            if not c.get("%s:%s" % (n, be)):
+                out.append("deciding counter %s:%s is zero" % (n, be))
     for name in ("prime_verdicts", "composite_verdicts", "generated_primes", "modsqrt_roots", "modsqrt_nonresidues"):
         if not c.get(name):
             out.append("deciding counter %s is zero" % name)
@@ -67,6 +71,8 @@ def run(spec, ctx):
         arith(spec, ctx)
     elif kind == "modsqrt":
         modsqrt(spec, ctx)
+    elif kind == "histories":
+        histories(spec, ctx)
     elif kind == "primality":
         primality(spec, ctx)
     elif kind == "generators":
@@ -149,6 +155,166 @@ def arith(spec, ctx):
         if len(args) >= 2 and isinstance(args[-1], int) and isinstance(args[0], int) and rng.random() < 0.1:
             args[0] = rng.choice([args[-1], -args[-1], args[-1] * 3, args[-1] + 1, args[-1] - 1])
         run_case(ctx, be, I, op, args)
+
+
+def histories(spec, ctx):
+    """A POOL of live Integer objects, each shadowed by a Python int, driven through a random history of out-of-place
+    operations (the result joins the pool) and in-place operations (one member changes).  After EVERY step every member of
+    the pool must still equal its shadow: a result that shares storage with an operand (returned `self`, cached object,
+    shared buffer) shows up when either of them is changed in place later, although each single operation was exact."""
+    be = spec["backend"]
+    I = get_backend(be)
+    rng = ctx.rng
+    CAP = 1 << 2100
+
+    def small():
+        return rng.choice([0, 1, 2, 3, 5, 7, 255, 65537, rng.getrandbits(31), rng.getrandbits(64), rng.getrandbits(200),
+                           rng.getrandbits(1024), rng.getrandbits(2048)])
+
+    def posmod():
+        return rng.choice([1, 2, 3, 7, 255, 256, 65537, rng.getrandbits(64) | 1, rng.getrandbits(256) | (1 << 255) | 1,
+                           rng.getrandbits(1024) | (1 << 1023) | 1, (rng.getrandbits(512) | (1 << 511)) & ~1])
+
+    while not ctx.expired():
+        pool = []               # [Integer object, shadow int, how it came to be]
+        steps = []
+        for v in (small(), small(), -small()):
+            pool.append([I(v), v, "ctor"])
+        for _ in range(rng.choice([8, 20, 40])):
+            i = rng.randrange(len(pool))
+            obj, sh, _how = pool[i]
+            b = rng.choice([small(), pool[rng.randrange(len(pool))][1], sh, posmod()])
+            b_arg = b if rng.random() < 0.5 else I(b)
+            r = rng.random()
+            op = None
+            try:
+                if r < 0.5:
+                    # ---- out-of-place: the result becomes a new member
+                    op = rng.choice(["mod", "mod", "mod", "add", "sub", "mul", "floordiv", "abs", "neg-free-copy", "rshift", "lshift",
+                                     "pow3", "gcd", "and", "or", "sqrt", "inverse", "lcm"])
+                    if op == "mod":
+                        m = b if b > 0 else posmod()
+                        m_arg = m if rng.random() < 0.5 else I(m)
+                        res, exp = obj % m_arg, sh % m
+                    elif op == "add":
+                        res, exp = obj + b_arg, sh + b
+                    elif op == "sub":
+                        res, exp = obj - b_arg, sh - b
+                    elif op == "mul":
+                        res, exp = obj * b_arg, sh * b
+                    elif op == "floordiv":
+                        if b == 0:
+                            continue
+                        res, exp = obj // b_arg, sh // b
+                    elif op == "abs":
+                        res, exp = abs(obj), abs(sh)
+                    elif op == "neg-free-copy":
+                        res, exp = I(obj), sh
+                    elif op == "rshift":
+                        n = rng.choice([0, 0, 1, 7, 64, 100])
+                        res, exp = obj >> n, sh >> n
+                    elif op == "lshift":
+                        n = rng.choice([0, 0, 1, 7, 64])
+                        res, exp = obj << n, sh << n
+                    elif op == "pow3":
+                        m = posmod() | 1
+                        e = rng.choice([0, 1, 1, 2, 3, 65537])
+                        res, exp = pow(obj, e, m), pow(sh, e, m)
+                    elif op == "gcd":
+                        res, exp = obj.gcd(b_arg), math.gcd(sh, b)
+                    elif op == "lcm":
+                        if sh == 0 or b == 0:
+                            continue
+                        res, exp = obj.lcm(b_arg), abs(sh * b) // math.gcd(sh, b)
+                    elif op in ("and", "or"):
+                        if sh < 0 or b < 0:
+                            continue
+                        res, exp = (obj & b_arg, sh & b) if op == "and" else (obj | b_arg, sh | b)
+                    elif op == "sqrt":
+                        if sh < 0:
+                            continue
+                        res, exp = obj.sqrt(), math.isqrt(sh)
+                    else:
+                        m = posmod()
+                        if m < 2 or math.gcd(sh, m) != 1:
+                            continue
+                        res, exp = obj.inverse(m), pow(sh, -1, m)
+                    if abs(exp) >= CAP:
+                        continue
+                    steps.append((op, i, hex(b)))
+                    pool.append([res, exp, op])
+                else:
+                    # ---- in-place: member i changes
+                    op = rng.choice(["iadd", "isub", "imul", "imod", "irshift", "ilshift", "ipow", "set", "macc", "iinverse"])
+                    if op == "iadd":
+                        obj += b_arg
+                        new = sh + b
+                    elif op == "isub":
+                        obj -= b_arg
+                        new = sh - b
+                    elif op == "imul":
+                        if abs(sh * b) >= CAP:
+                            continue
+                        obj *= b_arg
+                        new = sh * b
+                    elif op == "imod":
+                        m = b if b > 0 else posmod()
+                        obj %= (m if rng.random() < 0.5 else I(m))
+                        new = sh % m
+                    elif op == "irshift":
+                        n = rng.choice([0, 1, 13, 64])
+                        obj >>= n
+                        new = sh >> n
+                    elif op == "ilshift":
+                        n = rng.choice([0, 1, 13, 64])
+                        if abs(sh << n) >= CAP:
+                            continue
+                        obj <<= n
+                        new = sh << n
+                    elif op == "ipow":
+                        m = posmod() | 1
+                        e = rng.choice([0, 1, 2, 3, 65537])
+                        obj.inplace_pow(e, m)
+                        new = pow(sh, e, m)
+                    elif op == "set":
+                        obj.set(I(b))
+                        new = b
+                    elif op == "macc":
+                        c2 = small()
+                        if abs(sh + b * c2) >= CAP:
+                            continue
+                        obj.multiply_accumulate(b_arg, c2)
+                        new = sh + b * c2
+                    else:
+                        m = posmod()
+                        if m < 2 or math.gcd(sh, m) != 1:
+                            continue
+                        obj.inplace_inverse(m)
+                        new = pow(sh, -1, m)
+                    steps.append((op, i, hex(b)))
+                    pool[i][0], pool[i][1] = obj, new
+                    ctx.count("history_inplace_steps:" + be)
+            except Exception as e:      # noqa
+                ctx.check(False, "arith:%s:history:%s-raised-%s" % (be, op, type(e).__name__),
+                          "an operation with a well-defined result raised in the middle of a history",
+                          lambda: {"backend": be, "op": op, "steps": steps[-12:], "operand": hex(sh), "b": hex(b), "exc": repr(e)})
+                break
+            ctx.count("history_steps:" + be)
+            ctx.case((be, "history", op, _cls(sh), _cls(b)), nontrivial=True)
+            bad = [(j, how) for j, (o, v, how) in enumerate(pool) if int(o) != v]
+            ctx.count("history_pool_checks:" + be, len(pool))
+            if bad:
+                j, how = bad[0]
+                ctx.check(False, "arith:%s:history:value-changed-or-wrong-after-%s:member-from-%s" % (be, op, how),
+                          "after a step of the history a live Integer no longer equals exact integer arithmetic (the step's own "
+                          "result is wrong, or an in-place operation on one object changed another one that shares its storage)",
+                          lambda: {"backend": be, "steps": steps[-12:], "member": j, "created_by": how,
+                                   "got": hex(int(pool[j][0])), "expected": hex(pool[j][1])})
+                break
+            else:
+                ctx.ev()
+            if len(pool) > 8:
+                pool.pop(rng.randrange(len(pool)))
 
 
 def modsqrt(spec, ctx):
